@@ -251,6 +251,39 @@ def run(ctx):
               for j, o in zip(sk_jobs, sk_res) if o["exc"] or [l[0] for l in o["lines"]] != j["want"]]
     if sk_bad:
         ctx.violation("skip-behind-onmatch", {"what": "a line on which skip() fired was returned (skip() placed after an onmatch-qualified component)", "case": sk_bad[0], "more": sk_bad[1:4]})
+    # ... and no component placed after a skip() / stop() that fired runs on that line, whether or not an onmatch look-ahead evaluated it first;
+    # an onmatch component does not act on the skipped line (repaired defect lookahead-ignores-skip-and-stop)
+    la_rows = [["id", "a"], ["r1", "1"], ["r2", "2"], ["r3", "3"], ["r4", "2"], ["r5", "5"]]
+    la_jobs = []
+    for ti, (body, wl, wv) in enumerate([
+            ('push.onmatch("seen", line_number()) skip(#a == "2") push("after", line_number())', ["r1", "r3", "r5"], {"seen": [1, 3, 5], "after": [1, 3, 5]}),
+            ('skip(#a == "2") push.onmatch("seen", line_number()) push("after", line_number())', ["r1", "r3", "r5"], {"seen": [1, 3, 5], "after": [1, 3, 5]}),
+            ('push.onmatch("seen", line_number()) stop(#a == "2") push("after", line_number())', ["r1"], {"seen": [1], "after": [1]}),
+            ('push.onmatch("seen", line_number()) skip(#a == "2")', ["r1", "r3", "r5"], {"seen": [1, 3, 5]}),
+            ('@c.onmatch = count() #a == "2" -> skip() push("after", line_number())', [], {"after": [1, 3, 5]})]):
+        fname = f"c13la_{ti}.csv"
+        la_jobs.append({"text": f"${fname}[1*][ {body} ]", "rows": la_rows, "fname": fname, "method": ti % 2, "k": 0, "policy": ["collect", "print"], "wl": wl, "wv": wv})
+    # open finding: stop() as the final component behind an onmatch component — its line matched and must be returned
+    SIG_FS = "final-stop-behind-onmatch-line-not-returned"
+    la_jobs.append({"text": '$c13la_fs.csv[1*][ push.onmatch("seen", line_number()) push("after", line_number()) stop(#a == "2") ]', "rows": la_rows, "fname": "c13la_fs.csv", "method": 0, "k": 0,
+                    "policy": ["collect", "print"], "wl": ["r1", "r2"], "wv": {"seen": [1, 2], "after": [1, 2]}, "fs": True})
+    la_res = pmap(ctx, runloop.real_run, la_jobs, chunksize=2)
+    la_bad, fs_bad = [], []
+    for j, o in zip(la_jobs, la_res):
+        got_l = None if o["exc"] else [l[0] for l in o["lines"]]
+        got_v = None if o["exc"] else {k: v for k, v in _json.loads(o["vars"]).items() if k in j["wv"]}
+        if got_l != j["wl"] or got_v != j["wv"]:
+            rec = {"csvpath": j["text"], "rows": j["rows"], "returned": got_l, "expected_lines": j["wl"], "variables": got_v, "expected_variables": j["wv"], "exc": o["exc"]}
+            # the open finding is exactly: everything as expected except that the stop line is missing from the returned lines
+            (fs_bad if (j.get("fs") and got_v == j["wv"] and got_l == j["wl"][:-1]) else la_bad).append(rec)
+    if la_bad:
+        ctx.violation("lookahead-control", {"what": "a component placed after a skip() / stop() that fired ran on that line, or an onmatch component acted on a skipped line "
+                                                    "(csvpaths with an onmatch-qualified component, whose look-ahead evaluates the other components first)", "case": la_bad[0], "more": la_bad[1:4]})
+    if fs_bad:
+        if known_open(ctx.pid, SIG_FS):
+            ctx.known(f"{SIG_FS}: {fs_bad[0]['csvpath']} returns {fs_bad[0]['returned']} — the line on which the final stop() fired, which matched, is not returned")
+        else:
+            ctx.violation("final-stop-behind-onmatch", {"what": "stop() as the final component behind an onmatch-qualified component: the matching line on which it fires is not returned", "case": fs_bad[0]})
     fired = {repr(j[:4]) for j, o in zip(jobs, res) if not o["exc"] and (o["stopped"] or any(True for _ in o["vars"]))}
     # the translator tie: Scanner.includes / Scanner.is_last as written in the source of the tree under test, regenerated and
     # (when the text differs from the checked-in Scan/ScanSrc.v) re-proved equal to the model
